@@ -2,7 +2,7 @@
 import numpy as np
 
 from harness import project as P
-from harness.project import Q, NANV
+from harness.project import Q, Qs, NANV
 
 
 def region_assemble(g, name, loc, trim=True):
@@ -121,3 +121,123 @@ def obs_C02(g, out):
 
 
 P.OBS["C02"] = obs_C02
+
+
+def analytic_profiles(cfg):
+    from harness.drivers.gridrun import fpol_func, pressure_func
+
+    return fpol_func(cfg.get("fpol")), pressure_func(cfg.get("pressure"))
+
+
+def cell_dy_displacement(g):
+    t = g.extra["tables"]
+    dRy = np.full((t["meshnx"], t["meshny"]), np.nan)
+    dZy = np.full_like(dRy, np.nan)
+    for r in g.extra["regions"]:
+        x0, x1, y0, y1 = t["rects"][r["id"]]
+        Ryl, Zyl = g.reg["r%d_Rxy_ylow" % r["id"]], g.reg["r%d_Zxy_ylow" % r["id"]]
+        dRy[x0:x1, y0:y1] = Ryl[:, 1:] - Ryl[:, :-1]
+        dZy[x0:x1, y0:y1] = Zyl[:, 1:] - Zyl[:, :-1]
+    return dRy, dZy
+
+
+def obs_C03(g, out):
+    eq = g.eq
+    h = 1e-5
+    fpol0, pres0 = analytic_profiles(g.cfg)
+    psign = g.cfg.get("psi_sign", 1.0)
+    fpol = pres = None
+    if g.cfg.get("family", "tokamak") == "tokamak":
+        # the input profiles are given on the psi range of the psi1D array only; outside it the
+        # profile is its boundary value (spline ext=3), which is part of the profile's definition
+        from harness import equilibria as E
+
+        psi1d = E.tokamak_arrays(g.cfg["geometry"], g.cfg.get("nR", 65), g.cfg.get("nZ", 65), mirror=g.cfg.get("mirror", False),
+                                 psi1d_rmax=g.cfg.get("psi1d_rmax"))[3]
+        lo, hi = float(np.min(psi1d)), float(np.max(psi1d))
+        if fpol0 is not None:
+            fpol = lambda u: fpol0(np.clip(u, lo, hi))  # noqa: E731
+        if pres0 is not None:
+            pres = lambda u: pres0(np.clip(u, lo, hi))  # noqa: E731
+        if g.cfg.get("options", {}).get("extrapolate_profiles"):
+            # documented model outside the last profile point psi0: fpol constant, p = p0*exp((psi-psi0)*dpdpsi/p0)
+            psi0, psi0m = float(psi1d[-1]), float(psi1d[-2])
+            p0 = float(pres0(psi0))
+            dpdpsi = (p0 - float(pres0(psi0m))) / (psi0 - psi0m)
+            inner = (lambda u: u >= psi0) if psi1d[0] > psi1d[-1] else (lambda u: u <= psi0)
+            pres = lambda u: np.where(inner(u), pres0(np.clip(u, lo, hi)), p0 * np.exp((u - psi0) * dpdpsi / p0))  # noqa: E731
+    for loc in ("centre", "xlow", "ylow"):
+        f = lambda n: g.loc(n, loc)  # noqa: E731
+        R, Z = f("Rxy"), f("Zxy")
+        Br, Bz, Bp, Bt, B = f("Brxy"), f("Bzxy"), f("Bpxy"), f("Btxy"), f("Bxy")
+        dpsidZ = (eq.psi(R, Z + h) - eq.psi(R, Z - h)) / (2 * h)
+        dpsidR = (eq.psi(R + h, Z) - eq.psi(R - h, Z)) / (2 * h)
+        qB = relq(Br, Bz, rel=1e-7)
+        pair(out, "BrIsDpsidZOverR", loc, Br, dpsidZ / R, qB, 50)
+        pair(out, "BzIsMinusDpsidROverR", loc, Bz, -dpsidR / R, qB, 50)
+        pair(out, "BpMagnitude", loc, np.abs(Bp), np.sqrt(Br ** 2 + Bz ** 2), relq(Bp), 20)
+        pair(out, "BtotIsSqrt", loc, B, np.sqrt(Bp ** 2 + Bt ** 2), relq(B), 20)
+        psi = f("psixy")
+        if g.cfg.get("family", "tokamak") == "tokamak":
+            if fpol is not None:
+                # the analytic profile the input arrays were sampled from (psi of the unsigned family)
+                # (with extrapolate_profiles the constant continuation has a kink at the last profile point,
+                #  which the cubic spline rounds off: bound 1e-3 instead of 1e-4)
+                kink = 10.0 if g.cfg.get("options", {}).get("extrapolate_profiles") else 1.0
+                pair(out, "BtIsFpolOverR", loc, Bt, fpol(psi / psign) / R, relq(Bt, rel=1e-6 * kink), 100)
+            else:
+                pair(out, "BtIsFpolOverR", loc, Bt, np.zeros(R.shape), 1e-12, 0)
+        if pres is not None and g.var("pressure") is not None:
+            p = f("pressure")
+            leg_psi = g.extra["psi_sep"][0]
+            sign = np.sign(g.extra["psi_sep"][0] - g.extra["psi_axis"])
+            qp = relq(p, rel=1e-6)
+            if g.cfg.get("options", {}).get("extrapolate_profiles"):
+                qp = relq(p, rel=1e-4)      # the extension is a spline through 49 samples of the exponential
+            pair(out, "PressureIsProfile", loc, p, pres(psi / psign), qp, 100, dom="coreRegions")
+            # legs: reflected about the leg's separatrix value
+            psis = g.extra["psi_sep"]
+            refl = np.full(R.shape, np.nan)
+            t = g.extra["tables"]
+            for r in g.extra["regions"]:
+                x0, x1, y0, y1 = t["rects"][r["id"]]
+                if "wall" in r["kind"]:
+                    # the separatrix this leg hangs from: the psi of its X-point end
+                    lp = min(psis, key=lambda s: min(abs(s - r["psi_vals"][0]), abs(s - r["psi_vals"][-1])))
+                    pp = psi[x0:x1, y0:y1]
+                    refl[x0:x1, y0:y1] = lp + sign * np.abs(pp - lp)
+                else:
+                    refl[x0:x1, y0:y1] = psi[x0:x1, y0:y1]
+            pair(out, "PressureReflectedInLegs", loc, p, pres(refl / psign), qp, 100, dom="legRegions")
+    # one sign of Bp for the whole grid, equal to the direction of Bp along increasing y
+    dRy, dZy = cell_dy_displacement(g)
+    dot = g.var("Brxy") * dRy + g.var("Bzxy") * dZy
+    pair(out, "BpSignIsDirection", "centre", g.var("Bpxy"), dot, 1e-12, 0, kind="samesign")
+    out["bpsign_all"] = {loc: Q(np.sign(g.loc("Bpxy", loc)), 1.0) for loc in ("centre", "xlow", "ylow")}
+    # scalars
+    from scipy.optimize import minimize, fsolve
+
+    scal = {}
+    qs = 1e-8 * g.psi_scale()
+    if "o_point" in g.extra and g.var("psi_axis") is not None:
+        o = g.extra["o_point"]
+        sgn = 1.0 if eq.psi(*o) > eq.psi(o[0] + 0.05, o[1]) else -1.0
+        res = minimize(lambda p: -sgn * float(eq.psi(p[0], p[1])), o, method="Nelder-Mead", options={"xatol": 1e-10, "fatol": 1e-14})
+        scal["psi_axis"] = [Qs(float(g.var("psi_axis")), qs), Qs(float(eq.psi(*res.x)), qs)]
+        Ro = float(res.x[0])
+        if fpol is not None:
+            qb = 1e-7 * max(1.0, abs(float(g.var("Bt_axis"))))
+            scal["Bt_axis"] = [Qs(float(g.var("Bt_axis")), qb), Qs(float(fpol(float(eq.psi(*res.x)) / psign)) / Ro, qb)]
+    if g.extra.get("x_points") and g.var("psi_bdry") is not None:
+        x0 = g.extra["x_points"][0]
+
+        def grad(p):
+            return [(float(eq.psi(p[0] + h, p[1])) - float(eq.psi(p[0] - h, p[1]))) / (2 * h),
+                    (float(eq.psi(p[0], p[1] + h)) - float(eq.psi(p[0], p[1] - h))) / (2 * h)]
+
+        xs = fsolve(grad, x0, xtol=1e-12)
+        scal["psi_bdry"] = [Qs(float(g.var("psi_bdry")), qs), Qs(float(eq.psi(*xs)), qs)]
+    out["scalars"] = scal
+
+
+P.OBS["C03"] = obs_C03
